@@ -360,6 +360,39 @@ def r_buffer(ctx: Ctx, rule: str):
     w = [e for e in ctx.effects(fields=["_response_buffer"], kinds=["assign"]) if e.path.endswith("._response_buffer")]
     for e in w:
         rep.ob(rule, "the buffer object is never replaced after construction (the parser keeps writing to it)", ctx.fname(e.node.func) == "__init__", node=e.node)
+    # a parser's stream is fixed at construction (its sub-parsers captured the same object)
+    ws = [e for e in ctx.eff.all() if e.kind == "assign" and e.path == "self._stream" and ctx.prog.enclosing_class(e.node.func) is cp]
+    rep.floor(rule, "assignments of the parser's stream", len(ws), 1)
+    for e in ws:
+        rep.ob(rule, "a parser's stream is set once, by its constructor (sub-parsers hold the same object; re-pointing only the top parser splits the output)",
+               ctx.fname(e.node.func) == "__init__", node=e.node)
+    # every session builds its own parser
+    ps = [e for e in ctx.eff.all() if e.kind == "assign" and e.path == "self._parser" and ctx.prog.enclosing_class(e.node.func) is sess]
+    rep.floor(rule, "assignments of the session's parser", len(ps), 2)
+    for e in ps:
+        v = getattr(e.node.ast, "value", None)
+        fresh = (isinstance(v, ast.Constant) and v.value is None) or (isinstance(v, ast.Call) and ctx.an.scope(e.node.func).callee(v).kind == "ctor" and ctx.an.scope(e.node.func).callee(v).cls is cp)
+        rep.ob(rule, "a session's parser is a ControlParser constructed for this session (never one shared with another session)", fresh, node=e.node,
+               detail="" if fresh else f"assigned from {ast.unparse(v)[:60] if v is not None else None}")
+    # no module-level mutable state written by the control modules' functions
+    shared = []
+    for fn in ctx.prog.all_functions():
+        if fn.module.name not in (PARSER_MOD, SESSION_MOD, SERVER_MOD):
+            continue
+        sc2 = ctx.an.scope(fn)
+        for e in ctx.eff.of_func(fn):
+            root = e.path.split(".")[0].split("[")[0]
+            if e.kind in ("insert", "remove", "clear", "assign", "aug") and root in fn.module.assigns and root not in sc2.defs and root not in sc2.params and root != "log":
+                shared.append(e)
+        for node in sc2._own_nodes():
+            if isinstance(node, ast.Global):
+                shared.append(type("E", (), {"node": None, "path": ",".join(node.names), "kind": "global", "fn": fn, "ast": node})())
+    for e in shared:
+        if getattr(e, "node", None) is not None:
+            rep.ob(rule, "sessions share no mutable module-level state (each reply contains only the output of its own session)", False, node=e.node, detail=f"{e.kind} on module-level `{e.path}`")
+        else:
+            rep.ob(rule, "sessions share no mutable module-level state (each reply contains only the output of its own session)", False, func=e.fn, construct=e.ast)
+    rep.ob(rule, "no function of parser.py / session.py / server.py writes module-level state", not shared, construct=f"module-level writes: {len(shared)}")
     hs = sess.methods.get("client_handshake")
     if hs is None:
         raise AnalysisError("anchor: ControlSession.client_handshake missing")
@@ -505,6 +538,33 @@ def r_reply_forms(ctx: Ctx, rule: str):
             if var is not None:
                 writes = [m for m in ctx.nodes(f, lambda m: any(e.kind == "write" and e.path == "self._response_buffer" for e in ctx.eff.of_node(m)))
                           if any(isinstance(x, ast.Name) and x.id == var for x in ast.walk(m.ast))]
+                if not writes:
+                    # the value may be handed to a helper of the session that writes the reply
+                    helper_calls = [m for m in ctx.nodes(f, lambda m: m.op == "call" and m.callee is not None and m.callee.kind == "pkg" and all(t.cls is sess for t in m.callee.targets)
+                                                         and any(isinstance(x, ast.Name) and x.id == var for x in m.ast.args + [k.value for k in m.ast.keywords]))]
+                    handled = False
+                    for hc in helper_calls:
+                        h = hc.callee.targets[0]
+                        pn = next((pname for pname in h.param_names() if isinstance(ctx.call_arg(hc.ast, h, pname), ast.Name) and ctx.call_arg(hc.ast, h, pname).id == var), None)
+                        if pn is None:
+                            continue
+                        hg = ctx.an.cfg(h)
+                        hw = [m for m in ctx.nodes(h, lambda m: any(e.kind == "write" and e.path == "self._response_buffer" for e in ctx.eff.of_node(m)))
+                              if any(isinstance(x, ast.Name) and x.id == pn for x in ast.walk(m.ast))]
+                        cnode = [m for m in g.nodes if m.ast is c.ast and m.op == "call"]
+                        dom_call = bool(cnode) and g.exit not in reach([s2 for s2, lab in cnode[0].succ], lambda a, b, lab: lab[0] in NORMAL_KINDS, avoid={x for x in g.nodes if x.ast is hc.ast and x.op == "call"})
+                        dom_write = bool(hw) and hg.exit not in reach([hg.entry], lambda a, b, lab: lab[0] in NORMAL_KINDS, avoid=set(hw))
+                        rep.ob(rule + "r", "the outcome of the member call is written to the response buffer on every path", dom_call and dom_write, node=c,
+                               detail=f"through helper {h.short}")
+                        if hw and hw[0].ast.args:
+                            form = reply_form(hw[0].ast.args[0], pn, None)
+                            want = "str" if is_getter else "ok-or-str"
+                            ok = form == want or (is_getter and form == "ok-or-str")
+                            rep.ob(rule + "r", f"the reply has the form {'str(result)' if is_getter else 'ok if result is None else str(result)'}", ok, func=h, construct=hw[0],
+                                   detail=f"written: {ast.unparse(hw[0].ast.args[0])[:80]} ({form}): a falsy result that is not None (0, False, [], set()) must still be reported as its str()")
+                        handled = True
+                    if handled:
+                        continue
                 cnode = [m for m in g.nodes if m.ast is c.ast and m.op == "call"]
                 # every normal path from the call to the exit passes such a write
                 ok_dom = bool(writes) and bool(cnode) and g.exit not in reach([s for s, lab in cnode[0].succ], lambda a, b, lab: lab[0] in NORMAL_KINDS, avoid=set(writes))
@@ -747,6 +807,8 @@ def r_handshake(ctx: Ctx, rule: str):
                             for kk, vv in zip(d.keys, d.values):
                                 if ast.unparse(kk).replace(" ", "") in ("CLIENT_INFO.TERMINAL_WIDTH", "'terminal_width'"):
                                     width = vv
+        if isinstance(width, ast.Name) and len(sc.defs.get(width.id, [])) == 1 and sc.defs[width.id][0][0] == "assign":
+            width = sc.defs[width.id][0][1]
         ok = width is not None and isinstance(width, ast.Subscript) and isinstance(width.value, ast.Name)
         if ok:
             src = [h[1] for h in sc.defs.get(width.value.id, []) if h[0] == "assign"]
